@@ -440,10 +440,15 @@ struct Ed<'a> {
     inline_entry_used: usize,
     letargs_used: Vec<usize>,
     letrecvs_used: Vec<usize>,
+    letrecv_seen: Vec<(String, String)>,
+    /// (method name, byte position) of every method call of the extracted text (for `method#k`)
+    letrecv_positions: Vec<(String, usize)>,
     /// (loop ordinal, name of the loop variable) of `for name in ..` loops: `$loopK` in spliced text
     loop_vars: Vec<(usize, String)>,
     /// closures of the extracted text that received no contract header
     closures_unspecified: usize,
+    /// (closure ordinal, parameter ordinal, name): `$cK_J` in spliced text
+    closure_params: Vec<(usize, usize, String)>,
     loops_used: Vec<usize>,
     befores_used: Vec<bool>,
     macros_used: Vec<bool>,
@@ -501,8 +506,11 @@ impl<'a> Ed<'a> {
             inline_entry_used: 0,
             letargs_used: vec![0; dir.letargs.len()],
             letrecvs_used: vec![0; dir.letrecvs.len()],
+            letrecv_seen: vec![],
+            letrecv_positions: vec![],
             loop_vars: vec![],
             closures_unspecified: 0,
+            closure_params: vec![],
             loops_used: vec![],
             befores_used: vec![false; dir.befores.len()],
             macros_used: vec![false; dir.macros.len()],
@@ -768,15 +776,35 @@ impl<'a, 'ast> Visit<'ast> for Ed<'a> {
                 let es = e.span().byte_range();
                 let ar = e.args[0].span().byte_range();
                 let recv = self.src[e.receiver.span().byte_range()].to_string();
-                self.push(es.start, ar.start, format!("{{ let {name} = "), "E19-argument-let-bound", true);
-                self.push(ar.end, es.end, format!(";\n{}\n        {recv}.{m}({name}) }}", text.trim_end()), "E19-argument-let-bound", true);
+                self.push(es.start, ar.start, format!("({{ let {name} = "), "E19-argument-let-bound", true);
+                self.push(ar.end, es.end, format!(";\n{}\n        {recv}.{m}({name}) }})", text.trim_end()), "E19-argument-let-bound", true);
                 self.visit_expr(&e.args[0]);
                 return;
             }
         }
         // E19: `recv.method(args)` -> `{ let name = recv; <proof text> name.method(args) }`
         for (n, (m, name, text)) in self.dir.letrecvs.iter().enumerate() {
-            if e.method == m.as_str() && !matches!(*e.receiver, syn::Expr::Path(_)) {
+            // `method#k`: the k-th call of that method (in source order of their receivers' ends)
+            let (m, want) = match m.split_once('#') {
+                Some((mm, k)) => (mm, k.parse::<usize>().ok()),
+                None => (m.as_str(), None),
+            };
+            if e.method == m && !matches!(*e.receiver, syn::Expr::Path(_)) {
+                if let Some(k) = want {
+                    let key = format!("{m}@{}", e.method.span().byte_range().start);
+                    if !self.letrecv_seen.iter().any(|(mm, kk)| mm == m && kk == &key) {
+                        self.letrecv_seen.push((m.to_string(), key.clone()));
+                    }
+                    // ordinal by source position among calls of this method seen so far is not
+                    // stable during the walk (outer calls are visited first), so positions of all
+                    // calls are collected up front in `letrecv_positions`
+                    let pos = e.method.span().byte_range().start;
+                    let mut all: Vec<usize> = self.letrecv_positions.iter().filter(|(mm, _)| mm == m).map(|(_, p)| *p).collect();
+                    all.sort();
+                    if all.get(k) != Some(&pos) {
+                        continue;
+                    }
+                }
                 self.letrecvs_used[n] += 1;
                 let es = e.span().byte_range();
                 let rr = e.receiver.span().byte_range();
@@ -785,17 +813,17 @@ impl<'a, 'ast> Visit<'ast> for Ed<'a> {
                     Some((r, a)) => (r.to_string(), Some(a.to_string())),
                     None => (name.clone(), None),
                 };
-                self.push(es.start, es.start, format!("{{ let {rname} = "), "E19-receiver-let-bound", false);
+                self.push(es.start, es.start, format!("({{ let {rname} = "), "E19-receiver-let-bound", false);
                 match (&aname, e.args.len()) {
                     (Some(an), 1) => {
                         // `{ let r = recv; let a = arg; <text> r.m(a) }`: receiver, then argument, as before
                         let ar = e.args[0].span().byte_range();
                         self.push(rr.end, ar.start, format!(";\n        let {an} = "), "E19-receiver-let-bound", true);
-                        self.push(ar.end, es.end, format!(";\n{}\n        {rname}.{m}({an}) }}", text.trim_end()), "E19-receiver-let-bound", true);
+                        self.push(ar.end, es.end, format!(";\n{}\n        {rname}.{m}({an}) }})", text.trim_end()), "E19-receiver-let-bound", true);
                     }
                     _ => {
                         self.push(rr.end, ms, format!(";\n{}\n        {rname}.", text.trim_end()), "E19-receiver-let-bound", true);
-                        self.push(es.end, es.end, " }", "E19-receiver-let-bound", false);
+                        self.push(es.end, es.end, " })", "E19-receiver-let-bound", false);
                     }
                 }
                 self.visit_expr(&e.receiver);
@@ -849,6 +877,15 @@ impl<'a, 'ast> Visit<'ast> for Ed<'a> {
     fn visit_expr_closure(&mut self, c: &'ast syn::ExprClosure) {
         let idx = self.closure_idx;
         self.closure_idx += 1;
+        for (j, p) in c.inputs.iter().enumerate() {
+            let inner = match p {
+                syn::Pat::Type(pt) => &*pt.pat,
+                other => other,
+            };
+            if let syn::Pat::Ident(pi) = inner {
+                self.closure_params.push((idx, j, pi.ident.to_string()));
+            }
+        }
         let start = c.span().byte_range().start;
         let bstart = c.body.span().byte_range().start;
         let bend = c.body.span().byte_range().end;
@@ -1223,6 +1260,17 @@ fn stmt_text_no_attrs<'s>(src: &'s str, s: &syn::Stmt, start: usize, end: usize)
     src[st..end].trim_start()
 }
 
+/// (method, position) of every method call
+struct MethodCallLister {
+    all: Vec<(String, usize)>,
+}
+impl<'ast> Visit<'ast> for MethodCallLister {
+    fn visit_expr_method_call(&mut self, e: &'ast syn::ExprMethodCall) {
+        self.all.push((e.method.to_string(), e.method.span().byte_range().start));
+        visit::visit_expr_method_call(self, e);
+    }
+}
+
 /// all closures of a block in visiting order: (span, spans of the closures nested inside)
 struct ClosureLister {
     all: Vec<(usize, usize)>,
@@ -1382,6 +1430,8 @@ fn main() {
 
     let mut output = String::new();
     let mut last_text_fn = String::new();
+    let mut pending_tail_subst: Vec<(String, String)> = vec![];
+    let mut skip_wrapper_tail = false;
     let mut stubbed: Vec<String> = vec![];
     let mut fn_maps: Vec<serde_json::Value> = vec![];
     let mut item_maps: Vec<serde_json::Value> = vec![];
@@ -1390,7 +1440,30 @@ fn main() {
     for (node_idx, n) in nodes.iter().enumerate() {
         match n {
             Node::Text(t) => {
-                output.push_str(t);
+                if skip_wrapper_tail {
+                    // the slice before this text was stubbed (`return vx_stub_diverge();`): the
+                    // hand-written tail of its wrapper may mention variables the slice no longer
+                    // binds, and is unreachable anyway — dropped up to the wrapper's closing brace
+                    skip_wrapper_tail = false;
+                    match t.find("\n}") {
+                        Some(p) => {
+                            output.push_str("    // vx: hand-written tail of the wrapper dropped (slice stubbed)");
+                            output.push_str(&t[p..]);
+                        }
+                        None => output.push_str(t),
+                    }
+                } else if !pending_tail_subst.is_empty() {
+                    let cut = t.find("\n}").unwrap_or(t.len());
+                    let mut head = t[..cut].to_string();
+                    for (ph, name) in &pending_tail_subst {
+                        head = head.replace(ph.as_str(), name);
+                    }
+                    pending_tail_subst.clear();
+                    output.push_str(&head);
+                    output.push_str(&t[cut..]);
+                } else {
+                    output.push_str(t);
+                }
                 // remember the last hand-written `fn name` (wrapper of the slices that follow)
                 for (pos, _) in t.match_indices("fn ") {
                     let rest = &t[pos + 3..];
@@ -1587,12 +1660,20 @@ fn main() {
                             }
                         }
                     }
-                    output.push_str(&format!("// vx:slice {} {} (src lines 0-0) STUBBED — UNVERIFIED\n    return vx_stub_diverge();\n{}", d.file, stub_key, lets));
+                    let _ = &lets;
+                    output.push_str(&format!("// vx:slice {} {} (src lines 0-0) STUBBED — UNVERIFIED\n    return vx_stub_diverge();\n", d.file, stub_key));
+                    skip_wrapper_tail = true;
                     fn_maps.push(serde_json::json!({"selector": d.selector, "file": d.file, "slice": true, "name": last_text_fn, "stubbed": true,
                         "src_lines": [0,0], "out_lines": [0,0], "awaits_erased": 0, "closures": 0, "loops": 0, "has_requires": false, "edits": {}}));
                     continue;
                 }
+                let mut slice_binds: Vec<(String, String)> = vec![];
                 let mut ed = Ed::new(&src.text, d);
+                if d.letrecvs.iter().any(|(m, _, _)| m.contains('#')) {
+                    let mut ml = MethodCallLister { all: vec![] };
+                    ml.visit_block(f.block);
+                    ed.letrecv_positions = ml.all;
+                }
                 if d.hoist.is_none() && !d.is_slice {
                     ed.resolve_closure_prefs(Some(f.block), None);
                 }
@@ -1708,6 +1789,19 @@ fn main() {
                     let b = if d.to.is_none() { a } else if to == "$" { blk.stmts.len() - 1 } else { b.unwrap_or_else(|| die(&format!("{ctx}: @@to anchor not found after @@from: {to}"))) };
                     let lo = blk.stmts[a].span().byte_range().start;
                     let hi = if empty_slice { lo } else { blk.stmts[b].span().byte_range().end };
+                    // `$firstK` / `$lastK` = K-th identifier bound by the `let` that is the first / last
+                    // statement of the slice (also replaced in the hand-written tail of the wrapper)
+                    if !empty_slice {
+                        for (tag, st) in [("first", &blk.stmts[a]), ("last", &blk.stmts[b])] {
+                            if let syn::Stmt::Local(l) = st {
+                                let mut ids = vec![];
+                                collect_pat_idents(&l.pat, &mut ids);
+                                for (k, id) in ids.iter().enumerate() {
+                                    slice_binds.push((format!("${tag}{k}"), id.clone()));
+                                }
+                            }
+                        }
+                    }
                     let body = if empty_slice {
                         *counts.entry("empty-slice".into()).or_insert(0) += 1;
                         "        // vx: EMPTY slice — no statement between the two anchors\n".to_string()
@@ -1869,6 +1963,16 @@ fn main() {
                 for (k, name) in &ed.loop_vars {
                     text = text.replace(&format!("$loop{k}"), name);
                 }
+                // `$cK_J` = the name the source gives to parameter J of closure K
+                for (k, j, name) in &ed.closure_params {
+                    text = text.replace(&format!("$c{k}_{j}"), name);
+                }
+                // longest placeholders first (`$last10` before `$last1`)
+                slice_binds.sort_by(|a, b| b.0.len().cmp(&a.0.len()));
+                for (ph, name) in &slice_binds {
+                    text = text.replace(ph.as_str(), name);
+                }
+                pending_tail_subst = slice_binds.clone();
                 for (a, b) in &d.substs {
                     if !text.contains(a.as_str()) {
                         if text.contains("vx: EMPTY slice") {
